@@ -18,14 +18,16 @@ def ndefOnly : List (Site × List Cls) := [
   (Site.fn_tt4_ndef_read, [Cls.ValueError]),
   (Site.fn_tag_ndef, [Cls.ValueError, Cls.RuntimeError, Cls.AssertionError]),
   (Site.fn_tag_NDEF_has_changed, [Cls.ValueError, Cls.RuntimeError, Cls.AssertionError])]
-theorem ndefOnly_ok : checkOnly world table prog ndefOnly = true := by decide +kernel
 def ndefCan : List (Site × Cls) := [
   (Site.fn_tt4_activate, Cls.clf_TimeoutError),
   (Site.fn_tt2_read_tlv, Cls.tag_tt2_Type2TagCommandError),
   (Site.fn_tt4_ndef_read_binary, Cls.tag_tt4_Type4TagCommandError),
   (Site.fn_tt3_read_from_ndef_service, Cls.tag_tt3_Type3TagCommandError),
   (Site.fn_tt1_mem_getitem, Cls.tag_tt1_Type1TagCommandError)]
-theorem ndefCan_ok : checkCan world table prog ndefCan = true := by decide +kernel
+/-- both lists, checked with one evaluation of the summary table -/
+theorem ndefAll_ok : checkAll world table prog ndefOnly [] ndefCan = true := by decide +kernel
+theorem ndefOnly_ok : checkOnly world table prog ndefOnly = true := (checkAll_split ndefAll_ok).1
+theorem ndefCan_ok : checkCan world table prog ndefCan = true := (checkAll_split ndefAll_ok).2.2
 
 
 /-- `nfc.tag.activate`: nothing escapes - the `CommunicationError` of the activation commands (RATS,
